@@ -401,6 +401,11 @@ class Layouts:
                 if isinstance(v, tuple) and len(v) == 2 and isinstance(v[0], ast.AST):
                     return self.const(v[0], v[1])
                 return v
+        if isinstance(node, ast.Call) and not node.keywords and len(node.args) == 1 and isinstance(node.args[0], ast.Constant) and isinstance(node.args[0].value, str) \
+                and ((isinstance(node.func, ast.Name) and node.func.id == "attrgetter") or (isinstance(node.func, ast.Attribute) and node.func.attr == "attrgetter"
+                                                                                           and isinstance(node.func.value, ast.Name) and node.func.value.id == "operator")) \
+                and all(x.isidentifier() for x in node.args[0].value.split(".")):
+            return Sym(node.args[0].value)  # attrgetter("a.b") as a context function is this.a.b
         if isinstance(node, ast.Lambda):
             p = this_path(node.body, {a.arg for a in node.args.args})
             if p:
@@ -918,6 +923,12 @@ class Describer:
                 return (r[1], lambda env: Evaluator(env=env, const_of=self.folder.const_of(m2), func_of=None, this_names=("this",)))
             return None
 
+        if isinstance(node, ast.Call) and not node.keywords and len(node.args) == 1 and isinstance(node.args[0], ast.Constant) and isinstance(node.args[0].value, str) \
+                and ((isinstance(node.func, ast.Name) and node.func.id == "attrgetter") or (isinstance(node.func, ast.Attribute) and node.func.attr == "attrgetter"
+                                                                                           and isinstance(node.func.value, ast.Name) and node.func.value.id == "operator")) \
+                and all(x.isidentifier() for x in node.args[0].value.split(".")):
+            # operator.attrgetter("a.b") applied to the context is the context function this.a.b
+            return "this." + node.args[0].value
         if isinstance(node, ast.Lambda):
             params = [a.arg for a in node.args.args]
             ev = Evaluator(const_of=const_of, func_of=func_of, this_names=(params[0],) if params else (), fold=fold_sizeof)
